@@ -10,6 +10,7 @@ import (
 	"fmt"
 	"os"
 	"sort"
+	"time"
 )
 
 var cmds = map[string]func(args []string) int{}
@@ -59,8 +60,9 @@ func readNDJSON[T any](path string) ([]T, error) {
 }
 
 type ndWriter struct {
-	f *os.File
-	w *bufio.Writer
+	f       *os.File
+	w       *bufio.Writer
+	flushed time.Time
 }
 
 func newNDWriter(path string) (*ndWriter, error) {
@@ -78,6 +80,11 @@ func (n *ndWriter) Write(v any) {
 	}
 	n.w.Write(b)
 	n.w.WriteByte('\n')
+	// the driver watches this file for progress: do not sit on results for long
+	if now := time.Now(); now.Sub(n.flushed) > time.Second {
+		n.w.Flush()
+		n.flushed = now
+	}
 }
 
 func (n *ndWriter) Close() { n.w.Flush(); n.f.Close() }
